@@ -16,6 +16,10 @@ pub fn run(thorough: bool) -> Vec<Part> {
         let limits = Limits { max_states: 8_000_000, max_secs: if thorough { 3000.0 } else { 150.0 }, ..Default::default() };
         let st = bfs(&cfg, &limits, workers());
         record(&mut part, "post-error-lockstep", &st);
+        {
+            let tl = crate::connx::stateless_sequences(&cfg, if thorough { 4 } else { 3 }, workers());
+            crate::connx::record_stateless(&mut part, &cfg.label, &tl);
+        }
         crate::explore::require_facts(&mut part, "post-error-lockstep", &st, &["continued_after_parse_error", "parse_error_while_partial_line_was_buffered_before_the_read"]);
         for (v, _) in &st.violations {
             part.violations.push(v.clone());
